@@ -194,7 +194,44 @@ def concat_star(I, extra):
     """Positional arguments of which one is *slist -> the *args tuple as an SList."""
     if len(extra) == 1:
         return extra[0].slist
-    _unsupported("a symbolic-length list mixed with other positional arguments")
+    stars = [i for i, x in enumerate(extra) if isinstance(x, StarArgs)]
+    if len(stars) != 1 or stars[0] != len(extra) - 1:
+        _unsupported("a symbolic-length list that is not the last positional argument")
+    pre, sl = extra[:-1], extra[-1].slist
+    if not all(is_num(x) for x in pre):
+        _unsupported("non-numeric arguments in front of a symbolic-length list")
+    n_pre = len(pre)
+
+    def elem(t):
+        v = real_term(sl.elem(z3.simplify(t - n_pre)))
+        for pos in reversed(range(n_pre)):
+            v = z3.If(t == pos, real_term(pre[pos]), v)
+        return SNum(v, False)
+    return SList(z3.simplify(sl.length + n_pre), elem, f"args({sl.tag})")
+
+
+def slice_list(I, sl, lo, hi):
+    """sl[lo:hi] with (possibly symbolic) integer bounds 0 <= lo, hi within range as decided on the path."""
+    lo_t = z3.IntVal(0) if lo is None else num_term(lo)
+    hi_t = sl.length if hi is None else num_term(hi)
+    # Python clamps; the supported case is 0 <= lo <= len and 0 <= hi <= len (checked on the path)
+    I.path.require(z3.And(lo_t >= 0, lo_t <= sl.length, hi_t >= 0, hi_t <= sl.length), "builtin:symbolic-slice-within-range")
+    n = z3.simplify(z3.If(hi_t >= lo_t, hi_t - lo_t, 0))
+    return SList(n, lambda t: sl.elem(z3.simplify(t + lo_t)), f"{sl.tag}[{lo_t}:{hi_t}]")
+
+
+def concat(I, a, b):
+    """a + b for two symbolic-length lists of numbers."""
+    def elem(t):
+        x, y = a.elem(t), b.elem(z3.simplify(t - a.length))
+        if is_num(x) and is_num(y):
+            return SNum(z3.If(t < a.length, real_term(x), real_term(y)), False)
+        _unsupported("concatenation of symbolic-length lists of objects")
+    return SList(z3.simplify(a.length + b.length), elem, f"({a.tag}+{b.tag})")
+
+
+def b_enumerate(I, sl):
+    return SList(sl.length, lambda t: (SNum(t, True) if not z3.is_int_value(t) else t.as_long(), sl.elem(t)), f"enumerate({sl.tag})", family=None)
 
 
 def b_zip(I, lists):
